@@ -412,6 +412,31 @@ def check_one(pid, tier):
     known = json.load(open(os.path.join(ROOT, "known_findings.json")))
 
     def undecided(reason):
+        # Fallback for the leaf codecs: the deductive check cannot decide (rewritten body, unsupported construct, failed
+        # support), but the bounded stand-ins (kani/) run on the real code whatever its shape. A harness that FAILS and whose
+        # input replays on the real code is a violation with a concrete failing input; a harness that passes proves nothing
+        # beyond its domain and the outcome stays undecided.
+        if pid in ("C01", "C02", "C04", "C16", "C17") and not os.environ.get("VERIF_NO_KANI_FALLBACK") and REPO == "/repo":
+            cex = None
+            try:
+                sys.path.insert(0, os.path.join(ROOT, "lib"))
+                import kani_twin
+                cex = kani_twin.refute(pid, reason)
+            except Exception:  # noqa
+                cex = None
+            if cex:
+                rid = "kani:" + cex["harness"]
+                rp = os.path.join(REPLAY, "%s-kani_%s.json" % (pid, cex["harness"]))
+                json.dump({"property": pid, "obligation": rid, "counterexample": cex,
+                           "note": "the deductive check ended undecided (%s); the bounded stand-in refutes the property on the real code with this input" % reason[:300]},
+                          open(rp, "w"), indent=1)
+                ev = {"property_id": pid, "tier": tier, "seed": seed, "level": "other",
+                      "coverage": {"explanation": "deductive check undecided (%s); violation found by the bounded Kani harness %s (%s) and replayed on the real code" % (reason[:300], cex["harness"], cex["harness_domain"]),
+                                   "evaluations": 1, "distinct_nontrivial": 1, "samples": [{"harness": cex["harness"], "input": cex["input"]}]},
+                      "assumptions": [], "wall_s": round(time.time() - t0, 2), "violations": 1}
+                json.dump(ev, open(evidence_path, "w"), indent=1)
+                print("VIOLATION property=%s replay=%s obligation=%s (bounded stand-in; deductive check undecided)" % (pid, rp, rid))
+                return 1
         print("UNDECIDED property=%s reason=%s" % (pid, reason))
         ev = {"property_id": pid, "tier": tier, "seed": seed, "level": "other",
               "coverage": {"explanation": "undecided: " + reason, "evaluations": 1, "distinct_nontrivial": 0},
